@@ -13,6 +13,7 @@ from vlib.serialize import Ser
 
 PASSES = {
     'optimize': lambda b: pyrtl.optimize(block=b),
+    'optimize-copy': None,
     'constant_propagation': lambda b: pyrtl.constant_propagation(b, True),
     'common_subexp_elimination': lambda b: pyrtl.common_subexp_elimination(b),
     '_remove_wire_nets': lambda b: passes._remove_wire_nets(b),
@@ -49,7 +50,11 @@ def check_pass(ctx, label, src, pname, steps, steps_alt, memmap_by_id, reps, rep
     work = passlib.private_copy(src)
     try:
         for _ in range(reps):
-            passlib.run_in(work, lambda: PASSES[pname](work))
+            if pname == 'optimize-copy':
+                # the non-updating form, called while an unrelated block is the working block
+                work = passlib.run_in(work, lambda: pyrtl.optimize(update_working_block=False, block=work), foreign=True)
+            else:
+                passlib.run_in(work, lambda: PASSES[pname](work), foreign=(pname != 'optimize' and ctx.rng.random() < 0.3))
     except Exception as e:  # noqa
         ctx.violation('%s-raises:%s' % (pname, simrun.err_class(e)),
                       '%s on a %s block raised %s: %s' % (pname, label, type(e).__name__, str(e)[:200]), replay)
@@ -99,7 +104,7 @@ def main(ctx):
     if not proofs_ok:
         n *= 3
     agree = total = 0
-    for k in range(n):
+    for k in ctx.loop(n):
         rng = ctx.rng
         d = gen.rand_design(rng, profile='small' if k % 3 else 'med', nops=rng.randint(3, 12), max_total=40,
                             wide_mem=False, raw=False, twins=True,
